@@ -1,36 +1,48 @@
-(** C04 - valid input never panics, in release and debug-assertion builds.  PROVED END TO END: [C04_no_panic] - for every build mode b (the model makes every overflow check, debug assertion, unwrap, index and the 62-limb capacity an explicit Panic outcome) parse_float returns Ok; it is a corollary of the correctness theorem.
-    Domain and premise as in props/C01.v: [in_domain] = valid_inputb and at most 2^28 digits, every i32
-    exponent; [deep_ok] is vacuous for the compact configurations and the single residual premise for
-    the Eisel-Lemire ones (see props/C01.v).  Closed by [exact]; the model is tied to /repo by the
-    correspondence harness on every run. *)
+(** C04 - valid input never panics, in release and debug-assertion builds.  PROVED END TO END: [C04_final] - for every build mode b (the model makes every overflow check, debug assertion, unwrap, index and the 62-limb capacity an explicit Panic outcome) parse_float returns Ok; a corollary of the correctness theorem.  [no_deep_fallback] is the number-theoretic part: the debug assertion shift <= 65 of the rounding primitive can never fire on the slow path.
+    Domain as in props/C01.v: [in_domain] = valid_inputb (ASCII digits, integer part without leading zero, any
+    i32 exponent) and at most 2^28 digits; all eight configurations, both formats, both build modes; NO further
+    premise (the [deep_ok] versions are kept beneath as the intermediate statements).  Closed by [exact]; the
+    model is tied to /repo by the correspondence harness on every run. *)
 
 From Coq Require Import ZArith QArith Qabs List Bool Reals Qreals.
 From Coq Require Import Floats.SpecFloat.
 From Flocq Require Import Core.Core.
-From ML Require Import base.RustSem model.Fmt model.Num model.Number model.Parse model.Lemire model.Bellerophon model.Top
+From ML Require Import base.RustSem model.Fmt model.Num model.Number model.Parse model.Lemire model.Bellerophon model.Vec model.Bigint model.Slow model.Top
   spec.Decimal spec.Round spec.RoundFacts spec.DigitsSuffice gen.Consts gen.Tables gen.BTables gen.PowDump
   proofs.ParseFacts proofs.FastPathFacts proofs.EndToEnd proofs.EndToEnd2 proofs.EndToEnd3 proofs.EndToEnd4 proofs.EndToEnd5 proofs.EndToEnd6 proofs.EndToEnd7
-  proofs.LemireFacts6 proofs.Glue.
+  proofs.LemireFacts6 proofs.Glue proofs.TruncFacts proofs.TruncFacts2 proofs.SlowFacts1 proofs.DeepFallback proofs.DeepFallback2 proofs.Final.
 Import ListNotations.
 
 Open Scope Z_scope.
+
+Theorem C04_C04_final :
+  forall (c : config) (f : format) (b : build) (i fr : list Z) (e : Z),
+         In c ALL_CONFIGS ->
+         f = F32 \/ f = F64 -> in_domain i fr e -> exists bits : Z, PF c f b i fr e = Ok bits.
+Proof. exact C04_final. Qed.
+
+Theorem C04_parse_float_correct_final :
+  forall (c : config) (f : format) (b : build) (i fr : list Z) (e : Z),
+         In c ALL_CONFIGS ->
+         f = F32 \/ f = F64 ->
+         valid_inputb i fr e = true ->
+         zlen i + zlen fr <= 2 ^ 28 -> PF c f b i fr e = Ok (RN f (dec_value i fr e)).
+Proof. exact parse_float_correct_final. Qed.
+
+Theorem C04_no_deep_fallback :
+  forall (f : format) (b : build) (n : number),
+         f = F32 \/ f = F64 ->
+         0 <= nmant n < 2 ^ 64 ->
+         (many n = true -> 2 ^ (MANTISSA_SIZE f + 3) <= nmant n /\ nmant n + 1 < 2 ^ 64) ->
+         no_deep_fallback_at f b n.
+Proof. exact no_deep_fallback. Qed.
 
 Theorem C04_C04_no_panic :
   forall (c : config) (f : format) (b : build) (i fr : list Z) (e : Z),
          In c ALL_CONFIGS ->
          f = F32 \/ f = F64 ->
-         in_domain i fr e -> deep_ok c f b i fr e -> exists bits : Z, PF c f b i fr e = Ok bits.
+         in_domain i fr e -> EndToEnd7.deep_ok c f b i fr e -> exists bits : Z, PF c f b i fr e = Ok bits.
 Proof. exact C04_no_panic. Qed.
-
-Theorem C04_parse_float_correct :
-  forall (c : config) (f : format) (b : build) (i fr : list Z) (e : Z),
-         In c ALL_CONFIGS ->
-         f = F32 \/ f = F64 ->
-         valid_inputb i fr e = true ->
-         zlen i + zlen fr <= 2 ^ 28 ->
-         (compact c = false -> no_deep_fallback_at f b (parse_spec i fr e)) ->
-         PF c f b i fr e = Ok (RN f (dec_value i fr e)).
-Proof. exact parse_float_correct. Qed.
 
 Theorem C04_parse_number_no_panic :
   forall (b : build) (i f : list Z) (e : Z),
@@ -46,7 +58,9 @@ Theorem C04_try_fast_path_no_panic_shipped :
 Proof. exact try_fast_path_no_panic_shipped. Qed.
 
 
+Print Assumptions C04_C04_final.
+Print Assumptions C04_parse_float_correct_final.
+Print Assumptions C04_no_deep_fallback.
 Print Assumptions C04_C04_no_panic.
-Print Assumptions C04_parse_float_correct.
 Print Assumptions C04_parse_number_no_panic.
 Print Assumptions C04_try_fast_path_no_panic_shipped.
